@@ -39,7 +39,9 @@ PROP = dict(
           "over a pool of 2-5 base requests with exact repeats, same-normal-form respellings (case incl. U+0130/U+212A, padding incl. NBSP/U+3000), "
           "single-field option deltas over every field of SearchOptions, typo-only / degenerate / long / invalid-UTF-8 queries, via all four entry points; plus a "
           "NaN/Inf stream, an eviction stream (>1000 distinct keys) and an aliasing probe. A case is non-trivial if it has at least one cache hit and at "
-          "least one of: single-field delta pair, database update, hit through a respelled query, expiry; distinct = distinct op sequences"),
+          "least one of: single-field delta pair, database update, hit through a respelled query, expiry; distinct = distinct op sequences. "
+          "Key-text stream (domain keyjson: groups of neighbouring requests over every field empty / non-empty, all string escape classes, extreme ints and floats, "
+          "maps with keys colliding after UTF-8 coercion): a case counts if a JSON text was produced that exercises an escape class or a non-scalar / boundary value"),
     assumptions=["enc injective (C05.lean); in C05b.lean reduced to: hash injective (SHA-256 collision-free), FloatFmtOK (float text injective on finite values), GoTextOK (%#v text, NaN/Inf requests only), "
                  "NormValid (normalised query is valid UTF-8), WellTyped (requests are well-typed Go values) - the injectivity of the JSON text on the key view is proved",
                  "EngineReadsOnly engineReads answer (syntactic reads analysis + omitempty identification respected by the engine)",
